@@ -359,6 +359,88 @@ def path_more(c, job):
                 info=dict(holds_sub=holds_sub, out=out))
         if out == "ok":
             c.prove("C08.robot attribute-is-the-robot-object", r.c1.motor is obj)
+    elif what == "inherited-ctor":
+        # the annotated constructor is inherited from a base component class; parameters with and without defaults
+        where = ["plain", "prefixed", "absent"][c.choose("where", 3)]
+        dflt = bool(c.choose("param_has_default", 2))
+        enc = Dep()
+        if dflt:
+            class BaseArm:
+                def __init__(self, encoder: Dep = None):
+                    self.encoder = encoder
+
+                def execute(self):
+                    pass
+        else:
+            class BaseArm:
+                def __init__(self, encoder: Dep):
+                    self.encoder = encoder
+
+                def execute(self):
+                    pass
+
+        class Arm(BaseArm):
+            limit = 3
+
+        def createObjects(self):
+            if where == "plain":
+                self.encoder = enc
+            elif where == "prefixed":
+                self.arm_encoder = enc
+
+        r = type("Robot", (MagicRobot,), {"__annotations__": {"arm": Arm}, "createObjects": createObjects})()
+        try:
+            r.robotInit()
+            out = "ok"
+        except (magicbot.inject.MagicInjectError, magicbot.magicrobot.MagicInjectError):
+            out = "inject-error"
+        except Exception as e:
+            out = "other:" + repr(e)[:80]
+        c.reach("inherited-ctor")
+        if where == "absent":
+            c.prove("C08.robot missing-or-mistyped-dependency-fails-at-startup", out == "inject-error", info=dict(where=where, out=out, default=dflt))
+        else:
+            c.prove("C08.robot ctor-parameters-injected", out == "ok" and r.arm.encoder is enc, info=dict(where=where, out=out, default=dflt, inherited=True))
+    elif what == "numeric":
+        # builtin numeric annotations are checked like any other type: an int is not a float, a bool is an int
+        ann = [float, int, complex, str][c.choose("annotation", 4)]
+        val = [5, 2.5, True, "x", 1j][c.choose("value", 5)]
+        via = c.choose("via", 3)  # attribute / prefixed attribute / constructor parameter
+
+        if via == 2:
+            class Comp:
+                def __init__(self, gain: ann):
+                    self.gain = gain
+
+                def execute(self):
+                    pass
+        else:
+            class Comp:
+                gain: ann
+
+                def execute(self):
+                    pass
+
+        def createObjects(self):
+            if via == 1:
+                self.c1_gain = val
+            else:
+                self.gain = val
+
+        r = type("Robot", (MagicRobot,), {"__annotations__": {"c1": Comp}, "createObjects": createObjects})()
+        try:
+            r.robotInit()
+            out = "ok"
+        except (magicbot.inject.MagicInjectError, magicbot.magicrobot.MagicInjectError):
+            out = "inject-error"
+        except Exception as e:
+            out = "other:" + repr(e)[:80]
+        c.reach("numeric-annotation")
+        good = isinstance(val, ann)
+        c.prove("C08.robot missing-or-mistyped-dependency-fails-at-startup", out == ("ok" if good else "inject-error"),
+                info=dict(annotation=ann.__name__, value=repr(val), via=via, out=out))
+        if out == "ok" and good:
+            c.prove("C08.robot attribute-is-the-robot-object", r.c1.gain is val)
     else:
         # constructor parameter with a default value: still injected (plain name, then '<component>_<param>'), missing -> error
         where = ["plain", "prefixed", "absent"][c.choose("where", 3)]
@@ -479,7 +561,8 @@ class C08(Spec):
     def jobs(self, tier):
         j = [dict(kind="unit", ann=a, private=p) for a in ("Dep", "int", "str", "list[int]") for p in (False, True)]
         j += [dict(kind="unit", ann=a, private=False) for a in ("Optional[Dep]", "Union[int,float]", "ClassVar[int]")]
-        j += [dict(kind="ctor"), dict(kind="robot"), dict(kind="twins"), dict(kind="more", what="narrowed"), dict(kind="more", what="ctor-default")]
+        j += [dict(kind="ctor"), dict(kind="robot"), dict(kind="twins"), dict(kind="more", what="narrowed"), dict(kind="more", what="ctor-default"),
+              dict(kind="more", what="inherited-ctor"), dict(kind="more", what="numeric")]
         return j
 
     def bounds(self, tier):
@@ -488,7 +571,7 @@ class C08(Spec):
 
     def reach_required(self, tier):
         return ["untouched", "prefixed-lookup", "absent", "mistyped", "delivered", "falsy-delivered", "ctor-private", "startup-fails", "startup-ok",
-                "inherited-annotations", "ctor-injection", "twins", "inherited-robot", "preset-non-class-annotation", "narrowed-annotation", "ctor-default"]
+                "inherited-annotations", "ctor-injection", "twins", "inherited-robot", "preset-non-class-annotation", "narrowed-annotation", "ctor-default", "inherited-ctor", "numeric-annotation"]
 
     def path_fn(self, c, job):
         return dict(unit=path_unit, ctor=path_ctor, robot=path_robot, twins=path_twins, more=path_more)[job["kind"]](c, job)
